@@ -88,7 +88,9 @@ pub fn run_attributed<T>(mut f: impl FnMut() -> Result<T, String>) -> Result<T, 
         once(&mut f)
     };
     match first {
-        Err(e) if !e.contains("PANIC at ") || e.contains("tokio.rs:124") => {
+        // every failure is re-run alone: under the shared gate the recorded "first panic" may belong to a case
+        // running on another thread
+        Err(e) => {
             let _g = IO_GATE.write().unwrap_or_else(|e| e.into_inner());
             let _ = take_repo_panic();
             match once(&mut f) {
@@ -118,7 +120,7 @@ pub fn failure_class(e: &str) -> String {
         let rest = &e[p..];
         let msg = rest.splitn(2, ": ").nth(1).unwrap_or("");
         let mut slug = String::new();
-        for w in msg.split(|c: char| !c.is_ascii_alphanumeric()).filter(|w| !w.is_empty()).take(9) {
+        for w in msg.split(|c: char| !c.is_ascii_alphanumeric()).filter(|w| !w.is_empty() && !w.chars().all(|c| c.is_ascii_digit())).take(9) {
             if !slug.is_empty() {
                 slug.push('-');
             }
